@@ -899,7 +899,10 @@ func lexHeaderParam(l *lexer) stateFn {
 func lexCss(l *lexer) stateFn {
 	l.next()
 	l.ignore()
-	for l.next() != '}' {
+	for ch := l.next(); ch != '}'; ch = l.next() {
+		if ch == eof {
+			return l.errorf("unclosed tag")
+		}
 	}
 	l.backup()
 	l.emit(itemText)
